@@ -81,3 +81,6 @@ template class crab::cfg::basic_block_rev<z_basic_block_t>;
 // rename): instantiate it over variables so that the twin of discrete_domain::rename is analysed too
 template void crab::domains::set_domain<crab::cfg_impl::z_var, std::less<crab::cfg_impl::z_var>>::rename(
     const std::vector<crab::cfg_impl::z_var> &, const std::vector<crab::cfg_impl::z_var> &);
+// the meet of discrete_pair_domain has no client in the tree (the assertion crawler only joins): instantiate it
+using vdf_pair_dom_t = crab::domains::discrete_pair_domain<crab::cfg_impl::z_var, ikos::discrete_domain<crab::cfg_impl::z_var>>;
+template vdf_pair_dom_t vdf_pair_dom_t::operator&(const vdf_pair_dom_t &) const;
